@@ -73,30 +73,64 @@ def parseCall : List String → Option Call
     pure (.raw t fl sid p)
   | _ => none
 
-/-- after a successful write: show the bytes and what a fresh reading Framer reads back. -/
-def c06Finish (w : Except WErr (List Nat)) (pre : List Nat) : String :=
+/-- after a successful write: show the bytes and what the reading Framer `fr0` reads back; also the
+reading Framer afterwards. -/
+def c06Finish (fr0 : Framer) (w : Except WErr (List Nat)) (pre : List Nat) : String × Framer :=
   match w with
-  | .error e => showWErr e
+  | .error e => (showWErr e, fr0)
   | .ok bs =>
-    let fr0 := newFramer
     let r0 := if pre.isEmpty then (⟨.error .eof, none, fr0, bs⟩ : ReadResult) else readFrame fr0 (pre ++ bs)
     let r := readFrame r0.fr r0.rest
-    s!"ok {dig bs} | {showRead r.res} rest={r.rest.length}"
+    (s!"ok {dig bs} | {showRead r.res} rest={r.rest.length}", r.fr)
+
+/-- one Write call on the writing Framer (buffer `wbuf`), read back by the reading Framer `fr`. -/
+def c06Call (wbuf : List Nat) (fr : Framer) (toks : List String) : Option ((List Nat × Framer) × String) :=
+  match parseCall toks with
+  | none => none
+  | some (.continuation sid eh frag) =>
+    -- the preparatory HEADERS goes through the same writing Framer
+    let p := runCall wbuf (.headers sid [] false false 0 {})
+    let r := runCall p.2 (.continuation sid eh frag)
+    let f := c06Finish fr r.1 (match p.1 with | .ok pre => pre | .error _ => [])
+    some ((r.2, f.2), f.1)
+  | some c =>
+    let r := runCall wbuf c
+    let f := c06Finish fr r.1 []
+    some ((r.2, f.2), f.1)
+
+/-- `rep n <op>`: the call n times, one reading Framer. Once an iteration leaves both Framers in
+the state it found them and repeats the previous result, all further iterations are identical
+(the model is a function of that state), so they are counted without being recomputed. -/
+def c06Rep (n : Nat) (toks : List String) (wbuf : List Nat) : List Nat × String :=
+  let rec go (fuel i : Nat) (wb : List Nat) (fr : Framer) (first : String) (same : Nat) (div : String) :
+      List Nat × Nat × String × String :=
+    match fuel with
+    | 0 => (wb, same, div, first)
+    | fuel + 1 =>
+      match c06Call wb fr toks with
+      | none => (wb, same, div, "bad-op")
+      | some ((wb', fr'), r) =>
+        let first' := if i == 0 then r else first
+        let same' := if r == first' then same + 1 else same
+        let div' := if r != first' && div == "-" then s!"{i}:[{r}]" else div
+        if i > 0 && wb' == wb && fr' == fr && r == first' then
+          -- fixpoint: the remaining `fuel` iterations give `r` again
+          (wb', same' + fuel, div', first')
+        else go fuel (i + 1) wb' fr' first' same' div'
+  let (wb, same, div, first) := go n 0 wbuf newFramer "" 0 "-"
+  if first == "bad-op" then (wbuf, "bad-op") else (wb, s!"rep n={n} same={same} div={div} | {first}")
 
 /-- state: the writing Framer's `wbuf`. -/
 def c06Step (wbuf : List Nat) (line : String) : List Nat × String :=
   match tokens line with
   | ["reset"] => ([], "ok")
-  | toks =>
-    match parseCall toks with
+  | "rep" :: n :: toks =>
+    match parseNat n with
+    | some n => if n ≥ 1 ∧ n ≤ 100000 ∧ toks.head? != some "rep" then c06Rep n toks wbuf else (wbuf, "bad-op")
     | none => (wbuf, "bad-op")
-    | some (.continuation sid eh frag) =>
-      -- the preparatory HEADERS goes through the same writing Framer
-      let p := runCall wbuf (.headers sid [] false false 0 {})
-      let r := runCall p.2 (.continuation sid eh frag)
-      (r.2, c06Finish r.1 (match p.1 with | .ok pre => pre | .error _ => []))
-    | some c =>
-      let r := runCall wbuf c
-      (r.2, c06Finish r.1 [])
+  | toks =>
+    match c06Call wbuf newFramer toks with
+    | none => (wbuf, "bad-op")
+    | some ((wb, _), r) => (wb, r)
 
 def main : IO Unit := runLoop c06Step []
